@@ -160,6 +160,7 @@ def cmd_check(a):
                 samples.append({"variant": r["variant"], "run_seed": s["seed"], "mode": s["mode"], "case": s["case"],
                                 "trace_head": s["trace_head"][:40], "replay_digest_equal": s["same_digest_on_replay"]})
     harness_errors = [dict(e, variant=r["variant"]) for r in results for e in r["harness_errors"]]
+    nonrepro = [dict(e, variant=r["variant"]) for r in results for e in r.get("nonrepro", [])]
     violations = [dict(v, variant=r["variant"], fw=r["fw"]) for r in results for v in r["violations"]]
 
     # replay files + fresh-interpreter confirmation -----------------------------------------------------
@@ -174,7 +175,8 @@ def cmd_check(a):
         rep = {"property": prop, "clause": v["clause"], "sig": v["sig"], "detail": v["detail"], "framework": v["fw"],
                "nvx": nvx, "mode": v["mode"], "repo_rev": rev, "seed": seed, "run_seed": v["seed"], "run_index": v["index"],
                "choices": v["min_choices"], "digest": v["min_digest"], "original_choices_len": len(v["choices"]),
-               "minimiser_executions": v["min_execs"], "schedule": v["min_labels"], "trace": v["min_trace"]}
+               "minimiser_executions": v["min_execs"], "minimised": v.get("minimised", True),
+               "schedule": v["min_labels"], "trace": v["min_trace"]}
         with open(path, "w") as f:
             json.dump(rep, f, indent=1)
         try:
@@ -188,7 +190,11 @@ def cmd_check(a):
         else:
             unconfirmed.append((v, path, rr))
 
-    ok = not reported and not unconfirmed and not harness_errors and not dead and runs > 0
+    # violations seen in a used worker process whose choice sequence does not show them in a fresh interpreter:
+    # process-global state leaks from one run into the next (in the library or in the harness).  Without a
+    # replayable violation next to them that is a harness error, never silence.
+    nonrepro_only = bool(nonrepro) and not reported
+    ok = not reported and not unconfirmed and not harness_errors and not dead and runs > 0 and not nonrepro_only
     ev = {
         "property_id": prop,
         "tier": tier,
@@ -244,6 +250,19 @@ def cmd_check(a):
         print("HARNESS-ERROR: violation %s [%s] did not reproduce identically in a fresh interpreter (%s): %s" % (
             v["clause"], v["sig"], path, json.dumps(rr)[:600]))
         rc = rc or 2
+    if nonrepro:
+        print("NOTE: %d violation(s) were seen only after other runs in the same worker process and do not replay from their "
+              "own choice sequence (state leaking between connections/sessions of one process?): e.g. %s [%s] %s" % (
+                  len(nonrepro), nonrepro[0]["clause"], nonrepro[0]["sig"], nonrepro[0]["detail"][:160]))
+        if nonrepro_only:
+            hp = os.path.join(OUT, "replays", "HARNESS-%s-nonrepro.json" % prop)
+            e = nonrepro[0]
+            with open(hp, "w") as f:
+                json.dump({"property": prop, "clause": e["clause"], "sig": e["sig"], "framework": e["variant"].split("-")[0],
+                           "nvx": e["variant"].rsplit("nvx", 1)[1], "mode": e.get("mode"), "choices": e["choices"], "digest": e["digest"],
+                           "error": "violation not reproducible from this sequence alone"}, f)
+            print("HARNESS-ERROR: non-replayable violation %s [%s] (sequence saved as %s)" % (e["clause"], e["sig"], hp))
+            rc = rc or 2
     for n, e in enumerate(harness_errors[:5]):
         hp = os.path.join(OUT, "replays", "HARNESS-%s-%d.json" % (prop, n))
         with open(hp, "w") as f:
